@@ -383,6 +383,44 @@ def device_reports_what_was_requested(kind, opt, v):
     _run(body())
 
 
+# ------------------------------------------------------------------ commands that send only what changed: histories
+# Light.set_hs_color compares the request with the reported state and sends only the component that differs - the
+# result of a command then depends on the command before it.
+
+
+def _hs_histories(tier, **fixed):
+    hues = (0, 1, 17, 18, 19, 120, 359, 360) if tier == "quick" else tuple(range(0, 361, 1))
+    sats = (0, 50, 60, 100)
+    if tier == "quick":
+        for h1, s1, h2, s2 in itertools.product(hues, sats, hues, sats):
+            yield ((h1, s1), (h2, s2))
+    else:
+        # every hue against its neighbours (the comparison that decides what is sent) and a far one
+        for h1 in hues:
+            for h2 in {max(0, h1 - 2), max(0, h1 - 1), h1, min(360, h1 + 1), min(360, h1 + 2), (h1 + 180) % 361}:
+                for s1, s2 in itertools.product(sats, repeat=2):
+                    yield ((h1, s1), (h2, s2))
+
+
+@standin("C39", cases=_hs_histories, kind="enum-native", exhaustive=False, bound="Light with hue and saturation addresses, every history of two set_hs_color commands over 8 hues (neighbouring ones included) x 4 saturations (quick) / every hue 0..360 against its neighbours within 2 and one far hue x 4 saturations (thorough), looped back after each command: the light reports the nearest representable hue and saturation of the latest request")
+def the_latest_hs_colour_is_reported_whatever_was_set_before(first, second):
+    from xknx import XKNX
+    from xknx.devices import Light
+    from xknx.dpt import DPTAngle, DPTScaling
+
+    async def body():
+        xknx = XKNX()
+        d = Light(xknx, "l", group_address_switch="1/1/4", group_address_hue="1/1/12", group_address_saturation="1/1/13")
+        xknx.devices.async_add(d)
+        for h, s_ in (first, second):
+            await d.set_hs_color((h, s_))
+            assert _drain(xknx) >= 1, ("nothing sent", first, second)
+            want = (DPTAngle.from_knx(DPTAngle.to_knx(h)), DPTScaling.from_knx(DPTScaling.to_knx(s_)))
+            assert d.current_hs_color == want, (first, second, "after", (h, s_), "reported", d.current_hs_color, "expected", want)
+
+    _run(body())
+
+
 # ------------------------------------------------------------------ loop back with a datapoint type configured for the address
 # With a group address -> DPT table the telegram queue decodes the outgoing telegram eagerly and a remote value
 # whose dpt_class is that type takes the decoded value instead of its own from_knx. That this is the same value
